@@ -50,7 +50,20 @@ func (x *exec) call(st *State, fr *Frame, ins ssa.Instruction, c *ssa.CallCommon
 func (x *exec) callCommon(st *State, fr *Frame, ins ssa.Instruction, c *ssa.CallCommon, fnv Value, args []Value, kind string, k cont) {
 	e := x.e
 	if b, ok := c.Value.(*ssa.Builtin); ok {
-		k(st, x.builtin(st, fr, ins, b, c, args))
+		x.lastAppendKeep = nil
+		rets := x.builtin(st, fr, ins, b, c, args)
+		if b.Name() == "append" && x.lastAppendKeep != nil && x.unit != nil && x.unit.Spec != nil && x.unit.Spec.Opts["splitappend"] != "" {
+			// "opt splitappend": the in-place and the reallocating case of append are explored as separate paths (the merged
+			// encoding keeps both behind if-then-else terms, which defeats quantifier instantiation in some proofs)
+			keep := *x.lastAppendKeep
+			st2 := st.clone()
+			st.assume(keep)
+			st2.assume(smt.Not(keep))
+			k(st, rets)
+			k(st2, rets)
+			return
+		}
+		k(st, rets)
 		return
 	}
 	ci := x.resolveCallee(st, fr, c, fnv)
